@@ -2,7 +2,7 @@
 import langgen as lg
 from props.c13 import parse_case
 
-ALPHABET = list(" \n\r\t()[]{}\"\\*$#,.:-+&|!~<>=/_") + list("0123456789abcdefxyzrANDornotinallanyXé€𝄞")
+ALPHABET = list(" \n\r\t()[]{}\"\\*$#,.:-+&|!~<>=/_") + list("0123456789abcdefxyzrANDornotinallanyXé€𝄞") + ["\u00a0", "\u0085", "\u2003", "\u3000", "\u200b", "\u1680"]
 TOKENS = ["and", "or", "xor", "not", "&&", "||", "^^", "!", "==", "!=", "<", "<=", ">", ">=", "eq", "ne", "lt", "le",
           "gt", "ge", "&", "bitwise_and", "contains", "matches", "~", "wildcard", "strict wildcard", "in", "{", "}",
           "(", ")", "[", "]", "[*]", ",", "$", "$l1", "any", "all", "num", "str", "ip.src", "tt", "bools", "strs",
@@ -68,8 +68,8 @@ def gen(rng, tier):
         e = g.gen_filter()
         text = lg.render_lexpr(sch, e, lg.Layout(rng)).encode()
         m = mutate_text(rng, text.replace(b" ", b"\n", rng.randrange(0, 5)))
-        pre = rng.choice([b"", b"\n", b"\n\n ", b" \r\n"])
-        post = rng.choice([b"", b"\n", b" \n\n"])
+        pre = rng.choice([b"", b"\n", b"\n\n ", b" \r\n", "\u00a0\n".encode(), "\t\u2003 ".encode(), "\u3000".encode()])
+        post = rng.choice([b"", b"\n", b" \n\n", "\u2028".encode(), " \u0085\t".encode(), "\u205f\u00a0".encode()])
         if valid_utf8(m):
             out.append(parse_case(sch, pre + m + post, 128))
     return out
